@@ -213,9 +213,31 @@ def fit_guard(ctx) -> None:
             return S["dc"]
         return None
 
+    # attributes that hold a constructor argument unchanged (`self.shape_A = shape_A`): a guard written over the attribute
+    # (e.g. in a validation method called at the end of the constructor) is a guard over the argument
+    attr_stores = {}
+    for nd in fv.cfg.nodes:
+        if nd.kind == "stmt" and isinstance(nd.ast, ast.Assign) and len(nd.ast.targets) == 1 and isinstance(nd.ast.targets[0], ast.Attribute) and is_name(nd.ast.targets[0].value, selfn):
+            attr_stores.setdefault(nd.ast.targets[0].attr, []).append(nd)
+
+    def through_attrs(e, at):
+        class R(ast.NodeTransformer):
+            def visit_Attribute(self, n):
+                self.generic_visit(n)
+                st = attr_stores.get(n.attr, [])
+                if is_name(n.value, selfn) and len(st) == 1 and fv.cfg.dominates(st[0].id, at):
+                    v = fv.res.resolve(st[0].ast.value, st[0].id)
+                    if isinstance(v, ast.Name) and v.id in f.params:
+                        return v
+                return n
+
+        import copy as _copy
+
+        return R().visit(_copy.deepcopy(e))
+
     found = {0: None, 1: None}
     for n, test, pol, r in fv.raising_guards():
-        rt = fv.res.resolve(test, n.id)
+        rt = through_attrs(fv.res.resolve(test, n.id), n.id)
         cm = to_cmp(rt, pol, opaque)
         if cm is None:
             continue
